@@ -109,6 +109,8 @@ class Interp:
         self.summaries = {}  # "rel::qualname" -> python fn(ip, args, kwargs) -> value
         self.loop_specs = {}  # ("rel::qualname", ordinal) -> LoopSpec
         self.opaque_attr = {}  # attr name -> fn(ip, value) for U-sorted values
+        from .models_jax import DTYPE_OF
+        self.opaque_attr["dtype"] = lambda ip_, v: DTYPE_OF(v)  # every array value has a dtype (an uninterpreted function of the value)
         self.inlined = set()
         self.used_models = set()
         self.used_summaries = set()
@@ -675,9 +677,23 @@ class Interp:
                 if a is None or b is None:
                     r = False  # a z3 term is never None
                 elif is_z3(a) and is_z3(b):
-                    r = a.eq(b)
-                    if not r:
-                        raise Unsupported("identity of symbolic terms")
+                    if a.sort() != U or b.sort() != U:
+                        r = a.eq(b)
+                        if not r:
+                            raise Unsupported("identity of symbolic scalars")
+                    else:
+                        # object identity of two array values is independent of their contents: a mutable array that was changed in
+                        # place is the SAME object with another value, an equal copy is ANOTHER object with the same value - both
+                        # answers are possible, each is explored (per ordered pair of terms once per path)
+                        memo = self.ctx.ghost.setdefault("identity_choices", {})
+                        k_ = (str(a), str(b))
+                        if k_ not in memo:
+                            if len(memo) >= 2:  # bound the fork count per path (later pairs: same object iff same term); noted
+                                self.ctx.notes.append("object identity of array values: only the first 2 comparisons of a path are explored both ways")
+                                memo[k_] = a.eq(b)
+                            else:
+                                memo[k_] = self.ctx.choose([True, True], "object-identity") == 0
+                        r = memo[k_]
                 else:
                     r = False
             else:
